@@ -57,6 +57,28 @@ var (
 	externMod = map[string]string{}
 )
 
+// findIdent: the identifier called name inside e
+func findIdent(e ast.Expr, name string) *ast.Ident {
+	var found *ast.Ident
+	ast.Inspect(e, func(n ast.Node) bool {
+		if id, ok := n.(*ast.Ident); ok && id.Name == name && found == nil {
+			found = id
+		}
+		return true
+	})
+	return found
+}
+
+func isParamOf(fd *ast.FuncDecl, o types.Object) bool {
+	sig := info.Defs[fd.Name].Type().(*types.Signature)
+	for i := 0; i < sig.Params().Len(); i++ {
+		if sig.Params().At(i) == o {
+			return true
+		}
+	}
+	return false
+}
+
 func isTime(t types.Type) bool {
 	if t == nil {
 		return false
@@ -371,6 +393,37 @@ type gen struct {
 	mem     map[string]bool // unsafe.Pointer parameters that are the address of a struct in memory
 	conts   []string        // what `continue` means in the enclosing loops (innermost last)
 	scopeLo, scopeHi token.Pos // the loop body whose carried variables are being collected
+	// pointer slots: t := (*unsafe.Pointer)(p) makes t another name for the slot p addresses;
+	// t := *(*unsafe.Pointer)(p) holds the pointer stored there (nil or the address of a value)
+	aliases map[string]string
+	optVars map[string]bool
+	// unsafe.Pointer parameters that address a pointer slot (read as *(*unsafe.Pointer)(p) into a fresh variable or through an alias)
+	slotParam map[string]bool
+}
+
+// optExpr: e denotes a pointer value that may be nil (a loaded pointer): returns its Gallina term (an option)
+func (g *gen) optExpr(e ast.Expr) (string, bool) {
+	for {
+		if pe, ok := e.(*ast.ParenExpr); ok {
+			e = pe.X
+			continue
+		}
+		break
+	}
+	if id, ok := e.(*ast.Ident); ok && g.optVars[id.Name] {
+		return sane(id.Name), true
+	}
+	if st, ok := e.(*ast.StarExpr); ok {
+		if id, ok := st.X.(*ast.Ident); ok {
+			if base, ok := g.aliases[id.Name]; ok {
+				return "(go_load_opt " + sane(base) + ")", true
+			}
+		}
+	}
+	if name, t, ok := derefOf(e); ok && isUnsafePtr(t) && g.slotParam[name] {
+		return "(go_load_opt " + sane(name) + ")", true
+	}
+	return "", false
 }
 
 // memBaseOf: e is unsafe.Pointer(uintptr(p) + off): returns p and the offset expression
@@ -821,6 +874,16 @@ func (g *gen) binary(x *ast.BinaryExpr, pre *[]string) string {
 		} else if isNil(x.X) {
 			other = x.Y
 		}
+		if other != nil {
+			if o, ok := g.optExpr(other); ok {
+				usedMem = true
+				t := "(go_is_nil " + o + ")"
+				if x.Op == token.NEQ {
+					return "(negb " + t + ")"
+				}
+				return t
+			}
+		}
 		if other != nil && isCodecItf(info.Types[other].Type) {
 			usedMem = true
 			t := "(go_is_nil " + g.expr(other, pre) + ")"
@@ -1029,11 +1092,20 @@ func (g *gen) call(x *ast.CallExpr, pre *[]string) string {
 			recvE := g.expr(f.X, pre)
 			var args []string
 			for _, a := range x.Args {
+				if o, ok := g.optExpr(a); ok {
+					// a pointer that may be nil handed to the codec: the codec works on what it points to
+					av := g.fresh("pt")
+					*pre = append(*pre, fmt.Sprintf("do %s <- go_itf \"%s.%s\" %s;", av, g.fn.Name.Name, av, o))
+					args = append(args, av)
+					continue
+				}
 				args = append(args, g.expr(a, pre))
 			}
 			cd := g.fresh("cd")
 			*pre = append(*pre, fmt.Sprintf("do %s <- go_itf \"%s.%s\" %s;", cd, g.fn.Name.Name, cd, recvE))
 			switch f.Sel.Name {
+			case "New":
+				return fmt.Sprintf("(gc_New %s)", cd)
 			case "Omit", "Size":
 				return fmt.Sprintf("(gc_%s %s %s)", f.Sel.Name, cd, strings.Join(args, " "))
 			case "WireType":
@@ -1270,6 +1342,28 @@ func (g *gen) ret(r *ast.ReturnStmt, wrap func(string) string) string {
 		}
 		return wrap(g.retval(vals))
 	}
+	if len(res) == 1 {
+		if c, ok := res[0].(*ast.CallExpr); ok && len(c.Args) == 3 {
+			if sel, ok := c.Fun.(*ast.SelectorExpr); ok && sel.Sel.Name == "Read" && isCodecItf(info.Types[sel.X].Type) {
+				if st, ok := c.Args[1].(*ast.StarExpr); ok {
+					if id, ok := st.X.(*ast.Ident); ok {
+						if base, ok := g.aliases[id.Name]; ok && len(g.ptrsOut) == 1 && g.ptrsOut[0] == base && (g.recv == "" || g.recvRO) {
+							// return c.Read(data, *t, wt) with t the slot: the codec reads into what the slot points to
+							usedMem = true
+							recvE := g.expr(sel.X, &pre)
+							dataArg := g.expr(c.Args[0], &pre)
+							wtArg := g.expr(c.Args[2], &pre)
+							cd, pv0, rr, pv, n := g.fresh("cd"), g.fresh("pt"), g.fresh("rd"), g.fresh("pv"), g.fresh("n")
+							pre = append(pre, fmt.Sprintf("do %s <- go_itf \"%s.%s\" (go_load_opt %s);", pv0, g.fn.Name.Name, pv0, sane(base)))
+							pre = append(pre, fmt.Sprintf("do %s <- go_itf \"%s.%s\" %s;", cd, g.fn.Name.Name, cd, recvE))
+							pre = append(pre, fmt.Sprintf("do %s <- gc_Read %s fuel %s %s %s;", rr, cd, dataArg, pv0, wtArg))
+							return strings.Join(pre, " ") + fmt.Sprintf(" let '(%s, %s) := %s in let %s := go_store_opt %s %s in ", pv, n, rr, sane(base), sane(base), pv) + wrap(g.retval([]string{n}))
+						}
+					}
+				}
+			}
+		}
+	}
 	if len(res) == 1 && (g.recv == "" || g.recvRO) && len(g.ptrsOut) == 0 {
 		if c, ok := res[0].(*ast.CallExpr); ok {
 			if tv := info.Types[c]; tv.Type != nil {
@@ -1404,6 +1498,20 @@ func (g *gen) block(stmts []ast.Stmt, k string, retwrap func(string) string, ind
 		if len(x.Lhs) == len(x.Rhs) {
 			out := ""
 			for i := range x.Lhs {
+				if id, ok := x.Lhs[i].(*ast.Ident); ok && x.Tok == token.DEFINE {
+					if _, isAlias := g.aliases[id.Name]; isAlias {
+						if _, t, ok := ptrConvOf(x.Rhs[i]); ok && isUnsafePtr(t) {
+							continue // another name for the slot: nothing to compute
+						}
+					}
+					if g.optVars[id.Name] {
+						if name, t, ok := derefOf(x.Rhs[i]); ok && isUnsafePtr(t) && g.slotParam[name] {
+							usedMem = true
+							out += fmt.Sprintf("let %s := go_load_opt %s in\n%s", sane(id.Name), sane(name), ind)
+							continue
+						}
+					}
+				}
 				// s := &j.f[idx] : a place
 				if u, ok := x.Rhs[i].(*ast.UnaryExpr); ok && u.Op == token.AND && x.Tok == token.DEFINE {
 					out += g.definePlace(x.Lhs[i], u.X, &pre, ind)
@@ -1679,6 +1787,13 @@ func (g *gen) store(lhs ast.Expr, v string, ind string) string {
 		return fmt.Sprintf("let %s := %s in\n%s", sane(name), v, ind)
 	}
 	switch l := lhs.(type) {
+	case *ast.StarExpr:
+		if id, ok := l.X.(*ast.Ident); ok {
+			if base, ok := g.aliases[id.Name]; ok {
+				usedMem = true
+				return fmt.Sprintf("let %s := go_store_opt %s %s in\n%s", sane(base), sane(base), v, ind)
+			}
+		}
 	case *ast.Ident:
 		return fmt.Sprintf("let %s := %s in\n%s", sane(l.Name), v, ind)
 	case *ast.SelectorExpr:
@@ -2066,6 +2181,9 @@ func onlyCallsThrough(fd *ast.FuncDecl) bool {
 				e := sel.X
 				for {
 					if inner, ok := e.(*ast.SelectorExpr); ok {
+						if _, isItf := info.Types[inner].Type.Underlying().(*types.Interface); isItf {
+							break // a field holding a codec: that is a use of the receiver's state
+						}
 						e = inner.X // through embedded codecs: c.FlatIntCodec.Read
 						continue
 					}
@@ -2152,6 +2270,54 @@ func (g *gen) function() string {
 			g.ptrs[name] = t
 		}
 	}
+	g.aliases, g.optVars, g.slotParam = map[string]string{}, map[string]bool{}, map[string]bool{}
+	ast.Inspect(fd.Body, func(n ast.Node) bool {
+		a, ok := n.(*ast.AssignStmt)
+		if !ok || a.Tok != token.DEFINE || len(a.Lhs) != 1 || len(a.Rhs) != 1 {
+			return true
+		}
+		id, ok := a.Lhs[0].(*ast.Ident)
+		if !ok {
+			return true
+		}
+		if name, t, ok := derefOf(a.Rhs[0]); ok && isUnsafePtr(t) {
+			if o := info.Uses[findIdent(a.Rhs[0], name)]; o != nil && isParamOf(fd, o) {
+				g.slotParam[name] = true
+				g.optVars[id.Name] = true
+			}
+		} else if name, t, ok := ptrConvOf(a.Rhs[0]); ok && isUnsafePtr(t) {
+			if o := info.Uses[findIdent(a.Rhs[0], name)]; o != nil && isParamOf(fd, o) {
+				g.slotParam[name] = true
+				g.aliases[id.Name] = name
+			}
+		}
+		return true
+	})
+	ast.Inspect(fd.Body, func(n ast.Node) bool {
+		switch x := n.(type) {
+		case *ast.AssignStmt:
+			for _, l := range x.Lhs {
+				if st, ok := l.(*ast.StarExpr); ok {
+					if id, ok := st.X.(*ast.Ident); ok {
+						if base, ok := g.aliases[id.Name]; ok {
+							written[base] = true
+						}
+					}
+				}
+			}
+		case *ast.CallExpr:
+			if sel, ok := x.Fun.(*ast.SelectorExpr); ok && sel.Sel.Name == "Read" && isCodecItf(info.Types[sel.X].Type) && len(x.Args) == 3 {
+				if st, ok := x.Args[1].(*ast.StarExpr); ok {
+					if id, ok := st.X.(*ast.Ident); ok {
+						if base, ok := g.aliases[id.Name]; ok {
+							written[base] = true // the pointee is part of the slot's value
+						}
+					}
+				}
+			}
+		}
+		return true
+	})
 	g.mem = memParams[fkey(fd)]
 	ast.Inspect(fd.Body, func(n ast.Node) bool {
 		// a Read through the Codec interface into a field of the struct at p writes that struct
@@ -2451,9 +2617,9 @@ func main() {
 					if _, isPtr := info.Defs[fd.Recv.List[0].Names[0]].Type().(*types.Pointer); !isPtr {
 						if onlyCallsThrough(fd) {
 							usesRecv[key] = false
-						} else {
-							fail(fd, "value receiver that is used: outside the subset")
 						}
+						// otherwise: a value receiver whose fields are read - a parameter (it cannot be written:
+						// recvWritten is checked below)
 					}
 				}
 				if usesRecv[key] {
@@ -2536,6 +2702,11 @@ func main() {
 	for _, n := range order {
 		if usesRecv[n] && !recvWritten[n] {
 			monadic[n] = false // decided by what the body does, like any function
+		}
+		if usesRecv[n] && recvWritten[n] {
+			if _, isPtr := info.Defs[funcs[n].Recv.List[0].Names[0]].Type().(*types.Pointer); !isPtr {
+				fail(funcs[n], "a value receiver that is assigned to: outside the subset")
+			}
 		}
 	}
 	for changed := true; changed; {
